@@ -10,11 +10,15 @@
  ***************************************************************************)
 EXTENDS Naturals, Sequences, FiniteSets, TLC, Json
 CONSTANTS Kinds, Probes, MaxHist, ResetFields
-Fields == {"params", "locals", "viewbind", "flash", "bind", "redirect", "resphdr", "route", "baseuri"}
+Fields == {"params", "locals", "viewbind", "flash", "bind", "redirect", "resphdr", "route", "baseuri", "renderbind", "respbody"}
 \* which context fields a request of a kind writes; "flashpartial"/"flashtrunc" decode INTO the slots that are there
 \* ("sendfilemaxage" fills the application's SendFile handler store, which is keyed by the call's configuration and is not a
 \* context field: the probe "sendfile" uses another configuration and must not see its Cache-Control)
+\* ("viewrender" / "localsrender" render a view WITHOUT bind data of their own: the map Render then fills from the request's view
+\* bindings / locals is "renderbind" -- it belongs to the call.  "jsonp" builds its response in a buffer, "respbody", that must stay the
+\* request's own until the response is written, also while a middleware is still working after the handler returned.)
 Writes(k) == CASE k \in {"params", "optparam"} -> {"params", "route"} [] k = "locals" -> {"locals"} [] k = "viewbind" -> {"viewbind"}
+               [] k = "viewrender" -> {"viewbind", "renderbind"} [] k = "localsrender" -> {"locals", "renderbind"} [] k = "jsonp" -> {"params", "route", "respbody"}
                [] k = "redirectwith" -> {"redirect", "resphdr"} [] k = "withinput" -> {"redirect", "bind", "resphdr"}
                [] k \in {"flashfull", "flashpartial", "flashtrunc"} -> {"flash"} [] k \in {"bindquery", "bindauto"} -> {"bind"}
                [] k = "resphdr" -> {"resphdr"} [] k = "baseurl" -> {"baseuri"} [] OTHER -> {"route"}
